@@ -5,7 +5,9 @@ package main
 // Emits SpecterModel/C24/Gen.lean: schemaVersion, the object names inspected by
 // schemaLooksLikeV1 / schemaHasAnyV1Objects, the embedded migrations (version + CREATE
 // statements with their IF NOT EXISTS flag) and the tables referenced by the statements that
-// prepareStatements prepares. Anything unexpected fails loudly.
+// prepareStatements prepares, and whether applyMigration runs the migration script and the version
+// stamp on one transaction (Begin … Commit, Rollback) or directly on the handle. Anything unexpected
+// fails loudly.
 
 import (
 	"fmt"
@@ -90,6 +92,78 @@ func c24Inspected(fn *ast.FuncDecl) (tables, indexes []string) {
 	return
 }
 
+// c24TxShape classifies applyMigration: "true" when the migration script (the Exec whose argument is
+// the migration's .sql field) and the user_version stamp both run on a transaction obtained from
+// Begin/BeginTx in this function, which is committed and has a Rollback; "false" when neither runs
+// on a transaction (statement-by-statement autocommit on the handle). Any other mixture is refused.
+func c24TxShape(fn *ast.FuncDecl) string {
+	txs := map[string]bool{}
+	ast.Inspect(fn.Body, func(n ast.Node) bool {
+		as, ok := n.(*ast.AssignStmt)
+		if !ok || len(as.Rhs) != 1 || len(as.Lhs) == 0 {
+			return true
+		}
+		if c, ok := as.Rhs[0].(*ast.CallExpr); ok {
+			if se, ok := c.Fun.(*ast.SelectorExpr); ok && (se.Sel.Name == "Begin" || se.Sel.Name == "BeginTx") {
+				if id, ok := as.Lhs[0].(*ast.Ident); ok {
+					txs[id.Name] = true
+				}
+			}
+		}
+		return true
+	})
+	isTx := func(e ast.Expr) bool {
+		id, ok := e.(*ast.Ident)
+		return ok && txs[id.Name]
+	}
+	scripts, scriptsOnTx, stamps, stampsOnTx := 0, 0, 0, 0
+	commit, rollback := false, false
+	ast.Inspect(fn.Body, func(n ast.Node) bool {
+		c, ok := n.(*ast.CallExpr)
+		if !ok {
+			return true
+		}
+		switch f := c.Fun.(type) {
+		case *ast.SelectorExpr:
+			switch f.Sel.Name {
+			case "Exec", "ExecContext":
+				for _, a := range c.Args {
+					if se, ok := a.(*ast.SelectorExpr); ok && se.Sel.Name == "sql" {
+						scripts++
+						if isTx(f.X) {
+							scriptsOnTx++
+						}
+					}
+				}
+			case "Commit":
+				commit = commit || isTx(f.X)
+			case "Rollback":
+				rollback = rollback || isTx(f.X)
+			}
+		case *ast.Ident:
+			if (f.Name == "setTxUserVersion" || f.Name == "setUserVersion") && len(c.Args) >= 1 {
+				stamps++
+				if isTx(c.Args[0]) {
+					stampsOnTx++
+				}
+			}
+		}
+		return true
+	})
+	if scripts == 0 || stamps == 0 {
+		c24Die("applyMigration: unsupported shape (script executions: %d, version stamps: %d)", scripts, stamps)
+	}
+	switch {
+	case scriptsOnTx == scripts && stampsOnTx == stamps && commit && rollback:
+		return "true"
+	case scriptsOnTx == 0 && stampsOnTx == 0 && len(txs) == 0:
+		return "false"
+	}
+	c24Die("applyMigration: unsupported shape (script on tx %d/%d, stamp on tx %d/%d, commit %v, rollback %v)",
+		scriptsOnTx, scripts, stampsOnTx, stamps, commit, rollback)
+	return ""
+}
+
 var (
 	c24CreateRe = regexp.MustCompile("(?i)CREATE\\s+(UNIQUE\\s+)?(TABLE|INDEX)\\s+(IF\\s+NOT\\s+EXISTS\\s+)?[`\"]?([A-Za-z_0-9]+)[`\"]?")
 	c24StmtRe   = regexp.MustCompile("(?i)^\\s*(CREATE|DROP|ALTER|INSERT|UPDATE|DELETE|PRAGMA|REPLACE)\\b")
@@ -114,6 +188,7 @@ func c24Facts(args []string) {
 	schemaVersion := ""
 	kinds := map[string]string{} // object name -> TABLE|INDEX as inspected
 	var looks, anyObjs []string
+	txMigration := ""
 	for _, d := range schema.Decls {
 		switch x := d.(type) {
 		case *ast.GenDecl:
@@ -129,6 +204,9 @@ func c24Facts(args []string) {
 				}
 			}
 		case *ast.FuncDecl:
+			if x.Name.Name == "applyMigration" && x.Body != nil {
+				txMigration = c24TxShape(x)
+			}
 			if x.Name.Name == "schemaLooksLikeV1" || x.Name.Name == "schemaHasAnyV1Objects" {
 				t, ix := c24Inspected(x)
 				for _, n := range t {
@@ -147,6 +225,9 @@ func c24Facts(args []string) {
 	}
 	if schemaVersion == "" || len(looks) == 0 || len(anyObjs) == 0 {
 		c24Die("schemaVersion / schemaLooksLikeV1 / schemaHasAnyV1Objects not found")
+	}
+	if txMigration == "" {
+		c24Die("applyMigration not found")
 	}
 
 	// --- migrations directory (VERIF_MUTANT_DIR shadows individual files)
@@ -265,7 +346,8 @@ func c24Facts(args []string) {
 		fmt.Fprintf(&b, "⟨%d, [%s]⟩", m.v, strings.Join(m.creates, ", "))
 	}
 	b.WriteString("]\n")
-	fmt.Fprintf(&b, "    prepared := %s }\n", c24List(prepared))
+	fmt.Fprintf(&b, "    prepared := %s\n", c24List(prepared))
+	fmt.Fprintf(&b, "    txMigration := %s }\n", txMigration)
 	b.WriteString("\nend Specter.C24.Gen\n")
 	fmt.Print(b.String())
 }
